@@ -274,6 +274,7 @@ class Target:
   # -- how values are chosen (overridden by targets with their own value classes) --
   annotated = False
   has_class = True
+  json_options = True
   deep_late = False     # late binding below an argument (append / element path)
 
   @property
@@ -403,7 +404,9 @@ JSON_FORMS = [
 
 def copy_forms(c, t):
   """[(clause, label, kind override or None, round trip)] for this check."""
-  tag, fn = JSON_FORMS[c['json_checks'] % len(JSON_FORMS)]
+  # (a target that is one narrow class of input is not combined with JSON options)
+  n = len(JSON_FORMS) if t.json_options else 3
+  tag, fn = JSON_FORMS[c['json_checks'] % n]
   forms = [('json-differs', 'json-round-trip', tag or None, fn)]
   if c['json_checks'] % 4 == 1 and t.picklable:
     forms.append(('pickle-differs', 'pickle-round-trip', None, pickled))
@@ -1152,6 +1155,7 @@ class XTarget(Target):
     self.fsrc, self.csrc = fsrc, csrc
     self.fkind, self.ckind = f'functor[{tag}]', f'class[{tag}]'
     self.tag, self.variant = tag, variant
+    self.json_options = False
     self.posonly = self.pos[:sig.get('posonly', 0)]
 
   def make_call(self, rng, style=None):
@@ -1186,9 +1190,6 @@ class FoldedCtx:
     setattr(self._ctx, name, value)
 
   def violation(self, clause, mechanism, detail, case):
-    if mechanism.startswith('hide_default_values:'):
-      # (a key of a JSON option, whatever the kind of target)
-      return self._ctx.violation(clause, mechanism, detail, case)
     # (an exception where none is expected: the library rejects what the interpreter accepts)
     folded = ('rejects-valid' if clause == 'unexpected-exception'
               else clause if clause in CALL_CLAUSES else 'described-wrongly')
